@@ -628,7 +628,7 @@ func BigBatch(name string, n int, slow bool, bound int) *world.Scenario {
 // log level "debug" (Debug lines formatted, Debug closures evaluated) and the slow-log enabled (threshold 1 ms): two
 // configuration switches that execute additional proxy code but must not change any observable behaviour.
 func ApplyConfigVariant(sc *world.Scenario) {
-	if hashStr(sc.Name)%3 == 1 {
+	if hashStr(sc.Name)%3 == 1 && !sc.NoVariant && sc.MaxLen < 1<<21 {
 		sc.DebugLog = true
 		if sc.SlowlogMs == 0 {
 			sc.SlowlogMs = 1
